@@ -40,7 +40,11 @@ def main(argv=None):
         repo = Repo(a.repo)
         run = Run(repo, prop, a.tier, seed, only).execute()
         extra = None
-        if a.tier == "thorough" and not a.replay and not run.all_violations() and not run.errors():
+        from .core import load_known, match_known
+
+        kn = load_known()
+        fresh = [v for v in run.all_violations() if not match_known(v, prop, kn)]
+        if a.tier == "thorough" and not a.replay and not fresh and not run.errors():
             from . import selftest
 
             extra = selftest.run_for(prop, a.repo, seed)
